@@ -594,6 +594,46 @@ def firstError (excl om : Bool) : List (List Track) → Option String
     else if (extractGroup excl om g).isNone then some "RuntimeError"
     else firstError excl om gs
 
+/-! ## `_extract_dwelltime_data_from_groups` on ANY list of groups (strengthening round H)
+
+`fit_binding_times` hands the function the per-kymograph split `_tracks_by_kymo()`; the function itself takes any
+iterable of groups: empty groups, several groups of one kymograph, groups in any order — and refuses (`ValueError`)
+a group whose tracks lie on more than one kymograph, for which "the kymograph's total duration" is not defined. -/
+
+/-- `group._kymos`: the distinct kymographs of the tracks of a group -/
+def groupKymos (g : List Track) : List Nat := uniqFirst (g.map (·.kymo))
+
+/-- `len(group._kymos) > 1` -/
+def mixed (g : List Track) : Bool := decide (1 < (groupKymos g).length)
+
+/-- which exception the code raises first when handed these groups: groups are processed in order; inside a group the
+    check for more than one kymograph (`ValueError`) comes before anything is read from the tracks -/
+def firstErrorGroups (excl om : Bool) : List (List Track) → Option String
+  | [] => none
+  | g :: gs =>
+    if mixed g then some "ValueError"
+    else if g.any (·.timeIdx = []) then some "IndexError"
+    else if (extractGroup excl om g).isNone then some "RuntimeError"
+    else firstErrorGroups excl om gs
+
+/-- `_extract_dwelltime_data_from_groups(groups, excl, observed_minimum=…)`: the exception's name, or the stacked rows
+    and the `removed_zeros` flag -/
+def extractGroups (excl om : Bool) (groups : List (List Track)) : Except String (List Row × Bool) :=
+  match firstErrorGroups excl om groups with
+  | some e => .error e
+  | none =>
+    match allSome (groups.map (extractGroup excl om)) with
+    | none => .error "RuntimeError"
+    | some parts => .ok (parts.flatMap (·.1), parts.any (·.2))
+
+/-- split a token list at the separator `|` -/
+def splitGroups : List String → List (List String)
+  | [] => [[]]
+  | t :: ts =>
+    match splitGroups ts with
+    | [] => [[t]]
+    | g :: gs => if t == "|" then [] :: g :: gs else (t :: g) :: gs
+
 /-! ## `KymoTrackGroup.fit_binding_times`: option defaults and error branches in front of the model -/
 
 /-- what `fit_binding_times` has decided when it constructs the `DwelltimeModel` -/
@@ -737,6 +777,13 @@ def handle : List String → Option String
     | none => match extract excl om tracks with
       | none => some "RuntimeError"
       | some (rows, removed) => some (showList showRow rows ++ " " ++ showBool removed)
+  -- the extraction function handed explicit groups: flags, then track tokens, groups separated by `|`
+  | "c15.extractgroups" :: excl :: om :: toks => do
+    let excl ← bool? excl; let om ← bool? om
+    let groups ← (splitGroups toks).mapM fun g => g.mapM track?
+    match extractGroups excl om groups with
+    | .error e => some e
+    | .ok (rows, removed) => some (showList showRow rows ++ " " ++ showBool removed)
   | _ => none
 
 end Verif.C15
